@@ -219,6 +219,46 @@ def main():
                 lines.append(f"strain {dim} {len(conn)} {fs(s2)} | " + " ".join(fs(v) for v in dN_pg[p].ravel()) + " | " + " ".join(fs(v) for v in X[conn][:, :dim].ravel()) + " | " + " ".join(fs(v) for v in ue.ravel()))
                 expect.append((real, dict(elemType=et, variant=variant, element=int(e), gauss=int(p))))
 
+    # ---------------- meshes mixing several element types ----------------
+    mixed = [("TRI3+QUAD4", lambda: M.mesh_mixed_2d()), ("PRISM6+HEXA8", lambda: M.mesh_mixed_3d())]
+    if thorough:
+        mixed += [("TRI6+QUAD8", lambda: M.mesh_mixed_2d("TRI6", "QUAD8")), ("PRISM15+HEXA20", lambda: M.mesh_mixed_3d("PRISM15", "HEXA20"))]
+    for name, mk in mixed:
+        mesh = mk()
+        dim = mesh.dim
+        A, t = rand_affine(rng, dim)
+        M.affine(mesh, A, t)
+        fr, _ = flux_residual(mesh)
+        flux_max, flux_meshes = max(flux_max, fr), flux_meshes + 1
+        X = mesh.coord
+        bn = boundary_nodes(mesh)
+        interior = np.setdiff1d(np.arange(mesh.Nn), bn)
+        law = make_law(rng, "iso" if dim == 3 else "ortho", dim, True)
+        simu = Simulations.Elastic(mesh, law)
+        G = np.zeros((3, 3))
+        G[:dim, :dim] = [[rng.randint(-8, 8) / 64 for _ in range(dim)] for _ in range(dim)]
+        a0 = np.array([rng.randint(-4, 4) / 8 if i < dim else 0.0 for i in range(3)])
+        want = (a0 + X @ G.T)[:, :dim]
+        ident = dict(mesh=name, G=G[:dim, :dim].tolist(), A=A.tolist(), Nn=int(mesh.Nn))
+        try:
+            simu.add_dirichlet(bn, [want[bn, c].copy() for c in range(dim)], ["x", "y", "z"][:dim])
+            u = np.asarray(simu.Solve()).reshape(mesh.Nn, dim)
+        except Exception as ex:  # noqa: BLE001
+            res.fail(f"patch solve raises mesh={name}", f"{type(ex).__name__}: {str(ex)[:150]}", ident)
+            continue
+        res.case((name, "mixed"), nontrivial=len(interior) > 0)
+        res.count("mixed-types")
+        err = np.abs(u - want).max() / (1 + np.abs(want).max())
+        if err > 1e-9:
+            res.fail(f"patch displacement mesh={name}", f"linear field not reproduced on a mesh mixing element types: max error {err:.2e} (interior nodes: {len(interior)})", ident)
+            continue
+        Gs = (G + G.T) / 2
+        for nm, val in (("Exx", Gs[0, 0]), ("Eyy", Gs[1, 1]), ("Exy", Gs[0, 1])):
+            got = np.asarray(simu.Result(nm, nodeValues=False), dtype=float)
+            if np.abs(got - val).max() > 1e-8 * (1 + abs(val)):
+                res.fail(f"patch results mesh={name} name={nm}", f"{nm} is not the constant {val}: max error {np.abs(got - val).max():.2e}", ident)
+                break
+
     # ---------------- heat conduction ----------------
     ttypes = (M.SEG + M.ALL_2D + M.ALL_3D) if thorough else ["SEG2", "SEG3", "SEG4", "TRI6", "QUAD8", "TETRA4", "HEXA8", "PRISM6"]
     for et in ttypes:
